@@ -67,14 +67,17 @@ PolicyAns(p, c) ==
 CapAfter(s, e) == LET g == e.grow
                       ok == {i \in 1..Len(g) : g[i].a > 0}
                   IN IF ok = {} THEN s.cap ELSE g[Max(ok)].a
+\* strict: no error has been returned before (after an error the buffer need not be full when the
+\* reader grows it, so the capacity bookkeeping below is only demanded in normal operation)
 GrowViol(s, e, elemLen, needRule) ==
   LET g == e.grow
       refused == {i \in 1..Len(g) : g[i].a = 0}
+      strict == s.mode \in {"stream", "ended", "failed"}
   IN (IF (e.res.k = "buffer_limit") # (refused # {}) /\ e.res.k \notin {"panic", "hang"}
       THEN {<<"C09", "buffer_limit_iff_refused">>} ELSE {})
-     \cup (IF \E i \in 1..Len(g) : g[i].c # (IF i = 1 THEN s.cap ELSE g[i - 1].a) /\ (i > 1 \/ s.cap > 0)
+     \cup (IF strict /\ \E i \in 1..Len(g) : g[i].c # (IF i = 1 THEN s.cap ELSE g[i - 1].a) /\ (i > 1 \/ s.cap > 0)
            THEN {<<"C09", "policy_not_given_current_capacity">>} ELSE {})
-     \cup (IF e.cap >= 0 /\ s.cap > 0 /\ e.cap # CapAfter(s, e)
+     \cup (IF strict /\ e.cap >= 0 /\ s.cap > 0 /\ e.cap # CapAfter(s, e)
            THEN {<<"C09", "capacity_not_the_policy_answer">>} ELSE {})
      \cup (IF \E i \in 1..Len(g) : PolicyAns(g[i].p, g[i].c) >= 0 /\ PolicyAns(g[i].p, g[i].c) # g[i].a
            THEN {<<"C09", "builtin_policy_arithmetic">>} ELSE {})
@@ -296,5 +299,7 @@ Judge(fmt, chain, s, e) ==
       env == IF e.op = "serde_set" THEN {}
              ELSE IoViol(e) \cup GrowViol(s, e, ElemLen(chain, s), needRule) \cup CapViol(s, e)
       cap2 == IF e.cap >= 0 THEN e.cap ELSE CapAfter(s, e)
-  IN [viol |-> core.viol \cup env, s |-> [core.s EXCEPT !.cap = cap2]]
+      ctx2 == core.s.ctx \cup (IF e.op # "serde_set" /\ SrcErrs(e) # {} THEN {"fault"} ELSE {})
+                         \cup (IF e.res.k = "buffer_limit" THEN {"limit"} ELSE {})
+  IN [viol |-> core.viol \cup env, s |-> [core.s EXCEPT !.cap = cap2, !.ctx = ctx2]]
 =============================================================================
